@@ -207,11 +207,8 @@ def count_obligations(pid):
         if compiled or f == src:
             done += n
         files.append(rel)
-        for m in re.finditer(r'(?:From\s+PBC\s+)?Require\s+(?:Import|Export)?\s*([^.]*(?:\.[^.\s]+)*)\.', txt):
+        for m in re.finditer(r'From\s+PBC\s+Require\s+(?:Import|Export)\s+([\w.\s]+?)\.\s*(?:\n|$)', txt):
             for mod in m.group(1).split():
-                mod = mod.strip()
-                if mod.startswith('PBC.'):
-                    mod = mod[4:]
                 p = os.path.join(COQ, mod.replace('.', '/') + '.v')
                 if os.path.exists(p):
                     todo.append(p)
